@@ -674,6 +674,7 @@ coap_new_context(const coap_address_t *listen_addr) {
 
   coap_lock_lock(c, coap_free_type(COAP_CONTEXT, c); return NULL);
 #ifdef COAP_EPOLL_SUPPORT
+  c->eptimerfd = -1; /* nothing to close yet should coap_free_context_lkd() be needed */
   c->epfd = epoll_create1(0);
   if (c->epfd == -1) {
     coap_log_err("coap_new_context: Unable to epoll_create: %s (%d)\n",
@@ -739,8 +740,9 @@ coap_new_context(const coap_address_t *listen_addr) {
 
 #if defined(COAP_EPOLL_SUPPORT) || COAP_SERVER_SUPPORT
 onerror:
+  /* releases the DTLS context and the epoll / timer descriptors as well */
+  coap_free_context_lkd(c);
   coap_lock_unlock(c);
-  coap_free_type(COAP_CONTEXT, c);
   return NULL;
 #endif /* COAP_EPOLL_SUPPORT || COAP_SERVER_SUPPORT */
 }
